@@ -28,7 +28,7 @@ func (c17) Assumptions() []string {
 		"YAML encoding/decoding of the generated document is trusted (gopkg.in/yaml.v3 on both sides)",
 	}
 }
-func (c17) NumCases(tier string) int      { return tierN(tier, 3000, 100000) }
+func (c17) NumCases(tier string) int      { return tierN(tier, 3000, 600000) }
 func (c17) MinNontrivial(tier string) int { return tierN(tier, 300, 2000) }
 
 var hostileStrings = []string{"hello", "007", "1.10", "+5", "-3", "1e3", "TRUE", "false", "True", "'x'", "\"x\"", "[a,b]", "[]", "{}", "map[a:b]",
